@@ -193,6 +193,7 @@ package bits
 //@ func NewFixedSliceWriterFromSlice
 //@   notypeinv
 //@   ensures swInv(result) && fresh(result) && result.buf == data && result.off == 0 && result.accError == nil && result.n == 0 && result.v == 0
+//@   defines[C03] ghost(result).tr == trEmpty()
 //@   assigns nothing
 
 //@ func (*FixedSliceWriter).Len
@@ -205,6 +206,7 @@ package bits
 //@   notypeinv
 //@   requires sw != nil
 //@   ensures result == sw.off
+//@   defines[C03] sw.accError == nil && 0 <= sw.off && sw.off <= len(sw.buf) ==> chBytes(sw.buf[0:sw.off]) == trFlat(ghost(sw).tr)
 //@   assigns nothing
 
 //@ func (*FixedSliceWriter).Capacity
